@@ -128,6 +128,40 @@ def cleanupHeads (m : Store) : List Nat → Res Store
       else cleanupHeads m hs
     | none => .fault
 
+/-- "depth:name[=value]" entries joined by ';' ("-" = none) -/
+def parseDesc (w : String) : Option (List (Nat × Name × Val)) :=
+  if w = "-" then some [] else
+  (w.splitOn ";").mapM fun e =>
+    match e.splitOn ":" with
+    | [d, rest] =>
+      match d.toNat? with
+      | none => none
+      | some d =>
+        match rest.splitOn "=" with
+        | [nm] => some (d, some nm, none)
+        | [nm, v] => some (d, some nm, some v)
+        | _ => none
+    | _ => none
+
+/-- the forest of the entries of depth `d` at the front of the list, handles counted from `k` in pre-order; returns the
+    forest, the next handle and the remaining entries -/
+def buildDesc : List (Nat × Name × Val) → Nat → Nat → Nat → Forest × Nat × List (Nat × Name × Val)
+  | ents, _, k, 0 => ([], k, ents)
+  | [], _, k, _ => ([], k, [])
+  | (d', nm, v) :: rest, d, k, fuel + 1 =>
+    if d' ≠ d then ([], k, (d', nm, v) :: rest)
+    else
+      let kids := buildDesc rest (d + 1) (k + 1) fuel
+      let sibs := buildDesc kids.2.2 d kids.2.1 fuel
+      (.node k nm v kids.1 :: sibs.1, sibs.2.1, sibs.2.2)
+
+/-- the records of a forest whose handles are consecutive in pre-order (in that order) -/
+def layout : Forest → Option Nat → Option Nat → List Node
+  | [], _, _ => []
+  | (.node i n v cs) :: ts, par, prev =>
+    { next := headId ts, prev := prev, parent := par, children := headId cs, name := n, value := v, alive := true }
+      :: (layout cs (some i) none ++ layout ts par (some i))
+
 def step (s : St) (w : List String) : St × String :=
   match w with
   | ["n", "cxxreread", file, cycles] =>
@@ -136,6 +170,34 @@ def step (s : St) (w : List String) : St × String :=
     -- nodes is not modelled
     match parseHex file, cycles.toNat? with
     | some _, some c => if c > 16 then (s, "bad-op") else (s, "R same | C - | I ret=- | S same ; -")
+    | _, _ => (s, "bad-op")
+  | ["n", "pmerge", x, desc] =>
+    -- mpt_parse_node on a node that keeps its children: the forest that is read (given by `desc`: "depth:name[=value]"
+    -- in pre-order) takes the place of the children, the old children without namesake are moved into it
+    -- (mpt_node_move), the others are released
+    match tok s x, parseDesc desc with
+    | some x, some ents =>
+      match s.sp.find? x with
+      | none => precond s
+      | some tx =>
+        let n0 := s.m.nodes.length
+        let P := (buildDesc ents 0 n0 ents.length).1
+        if P.isEmpty then (s, line "ok" s.m "0" "ok" s.sp) else
+        let old := tx.children
+        let r := Forest.merge old P 0
+        let sp' : Forest.St := { s.sp with tops := s.sp.tops.map (modKids x fun _ => r.2.1), next := n0 + ents.length,
+                                           freed := s.sp.freed ++ ids r.1 }
+        -- model: the new list is laid out, the old children are moved into it, what is left of them is cleared,
+        -- the list becomes the children of x
+        let m1 : Store := { s.m with nodes := s.m.nodes ++ layout P none none }
+        let res : Res Store :=
+          (match old with
+           | [] => Res.ok m1
+           | _ => (m1.move m1.fuel (.kids x) (headId old) n0).bind fun r => .ok r.1).bind fun m2 =>
+          (m2.clear m2.fuel x).bind fun m3 =>
+          (m3.modify x fun y => { y with children := some n0 }).bind fun m4 =>
+          m4.setParents x m4.fuel (some n0)
+        finish s res sp' "0"
     | _, _ => (s, "bad-op")
   | ["n", "nparse", x, lim, inp] =>
     if inp ≠ "empty" ∧ inp ≠ "broken" then (s, "bad-op") else
